@@ -278,7 +278,9 @@ func runC14(t *testing.T, sched simrt.Schedule, prog c14Prog) ([]Violation, RunS
 				}
 				if key := killed[g]; key != "" {
 					for j := range out {
-						if strings.HasPrefix(out[j].Key, fmt.Sprintf("hang client%d.", c.Idx)) && strings.Contains(out[j].Key, "@sessionstore.go:") {
+						if strings.HasPrefix(out[j].Key, fmt.Sprintf("hang client%d.", c.Idx)) && (strings.Contains(out[j].Key, "@sessionstore.go:") || strings.Contains(out[j].Key, "@waitgroup.Wait")) {
+							// blocked at the next {sub}/{leave} (in-flight slot never returned) or, when the session is
+							// evicted meanwhile, in the clean-up that waits for the in-flight requests
 							out[j].Key = key
 						}
 						if out[j].Key == "closed-connection-still-registered" && strings.Contains(out[j].Text, fmt.Sprintf(" of client %d ", c.Idx)) {
